@@ -20,6 +20,9 @@ func propC09(cx *sim.Ctx) {
 		cx.Key(s.String())
 	}
 	in := c.Input
+	cx.Key(c.Used)
+	feUsed = c.Used
+	defer func() { feUsed = 0 }()
 	scan := ref.ScanJSON(in)
 	if scan.Valid || scan.Empty {
 		sim.Probe("input_not_rejected_by_reference")
